@@ -380,12 +380,21 @@ int main(int argc, char* argv[])
             solver->parameter("solver::quasi::initialization") = e.m_domain[static_cast<size_t>(rng.range(0, static_cast<int64_t>(e.m_domain.size()) - 1))];
         }
         quad_info_t qinfo;
-        const auto  function = make_quadratic(rng, rng.coin(1, 3) ? rng.range(8, 16) : rng.range(1, 16), qinfo, rng.coin(1, 3));
+        const auto  hard     = static_cast<int>(rng.pick(std::vector<int64_t>{0, 0, 0, 1, 2, 3}));
+        const auto  function = make_quadratic(rng, hard == 3 ? 16 : (rng.coin(1, 3) ? rng.range(13, 16) : rng.range(1, 16)), qinfo, hard);
         run_cfg_t   rc;
         rc.eps   = 1e-8;
         rc.quad  = true;
         rc.qinfo = &qinfo;
-        run(*solver, *function, random_x0(rng, function->size(), 10.0), rc, icase++, solver->type_id() + " on quadratic");
+        auto x0 = random_x0(rng, function->size(), 10.0);
+        if (hard == 3)
+        {
+            for (tensor_size_t k = 0; k < x0.size(); ++k)
+            {
+                x0(k) = rng.coin() ? -10.0 : 10.0; // a corner of the start box
+            }
+        }
+        run(*solver, *function, x0, rc, icase++, solver->type_id() + " on quadratic");
     }
     vt::put(vt::J("Reset").i("case", -1).s("desc", "end"));
     return 0;
